@@ -54,8 +54,8 @@ CHECKS.update({
         note="Partial: the zip crate's parser is not modelled; the listing of a readable archive is an input. Trusted: Python zipfile as the oracle of what was stored.",
         design="6 C19"),
     "C02": dict(
-        technique="Coq statements over the typed comparison tables regenerated from Searcher::conforms + differential test of atomic WHERE conditions against lstat attributes and against those tables",
-        text="The Int / Bool / DateTime comparison tables are re-extracted from the source on every run and pinned by theorems (C02_int_table, C02_bool_table, C02_bool_words, C02_between_inclusive); every generated atomic condition (all spellings of the eight comparison operators, unit literals, boolean words, BETWEEN, column-vs-column) is run on the binary and compared with the comparison evaluated on the entry's lstat attributes and with the regenerated tables.",
+        technique="Coq theorems over the typed comparison tables regenerated from Searcher::conforms and over a model of the literal's reading (Variant::to_int: i64, then parse_filesize with the regenerated ladder) + differential test of atomic WHERE conditions against lstat attributes, against those tables and of to_int against the model",
+        text="C02_int_literal_with_unit (for every attribute value, operator, integer and documented unit in any spelling, `column OP <integer><unit>` is the numeric comparison with integer x documented multiplier), C02_int_literal_plain / _negative, the Int / Bool / DateTime comparison tables (C02_int_table, C02_bool_table, C02_bool_words, C02_between_inclusive), all over definitions re-extracted from the source on every run; every generated atomic condition (all spellings of the eight comparison operators, unit literals, negative literals, boolean words, BETWEEN, column-vs-column, quoted literals that spell columns / functions / Display texts) is run on the binary and compared with the comparison evaluated on the entry's lstat attributes and with the regenerated tables; Variant::to_int (harness) is compared with model.Conforms.to_int.",
         note="Partial: Variant coercions (to_int fallbacks) are exercised by the differential test only; negative literals (F43, fixed) and quoted literals that spell a column, a function or the Display text of the left-hand expression (F44, fixed) are inside the generated domain; the empty literal (F45) is a recorded finding. Pattern operators are C12's, dates C13's.",
         design="6 C02"),
     "C03": dict(
